@@ -7,7 +7,8 @@
 //	              spec/Placement.tla (PlacementGen); the driver calls the REAL functions
 //	                constraint.Attributes.Satisfy, constraint.Constraints.MergeParent,
 //	                workflow role tree (YAML -> roles -> GenerateTaskDescriptors -> getConstraints),
-//	                task.Manager.BuildDescriptorConstraints, task.Resources.Satisfy,
+//	                task.Manager.BuildDescriptorConstraints (also: several task roles sharing one class registry
+//	                entry, deployed twice), task.Resources.Satisfy,
 //	                port.RangesFromExpression, taskclass.ResourceWants.UnmarshalYAML
 //	              and records {"ev":"Pure","scn","fn","in","out"}. No expectation is computed here:
 //	              spec/PlacementTrace.tla does that inside TLC.
@@ -71,6 +72,10 @@ type caseIn struct {
 	HasClass bool     `json:"hasclass,omitempty"`
 	Class    []pair   `json:"class,omitempty"`
 	Agents   [][]pair `json:"agents,omitempty"`
+	// SharedClass (class = the template's constraints, agents as above)
+	Root   []pair     `json:"root,omitempty"`
+	Descs  [][][]pair `json:"descs,omitempty"`
+	Rounds int        `json:"rounds,omitempty"`
 	// ResSatisfy
 	Res  *resIn  `json:"res,omitempty"`
 	Want *wantIn `json:"want,omitempty"`
@@ -155,7 +160,69 @@ func doCase(fn string, in *caseIn) (out interface{}, err error) {
 	case "Satisfy":
 		return mkAttrs(in.Attrs).Satisfy(mkCts(in.Cts)), nil
 	case "MergeParent":
-		return ctPairs(mkCts(in.Child).MergeParent(mkCts(in.Parent))), nil
+		child, parent := mkCts(in.Child), mkCts(in.Parent)
+		merged := child.MergeParent(parent)
+		return map[string]interface{}{"merged": ctPairs(merged), "parent_after": ctPairs(parent), "child_after": ctPairs(child)}, nil
+	case "SharedClass":
+		// several task roles load ONE task class; the class object is the registry entry every descriptor's
+		// constraints are merged over (Manager.BuildDescriptorConstraints), in this and in every later deployment
+		if len(in.Descs) < 1 {
+			return nil, fmt.Errorf("SharedClass needs descriptors")
+		}
+		groups := make([]interface{}, 0, len(in.Descs))
+		for i, d := range in.Descs {
+			if len(d) != 2 {
+				return nil, fmt.Errorf("descriptor %d: want [group level, task level]", i)
+			}
+			t := map[string]interface{}{"name": fmt.Sprintf("t%d", i+1), "task": map[string]interface{}{"load": "verif-class"}}
+			if len(d[1]) > 0 {
+				t["constraints"] = ctYAML(d[1])
+			}
+			g := map[string]interface{}{"name": fmt.Sprintf("g%d", i+1), "roles": []interface{}{t}}
+			if len(d[0]) > 0 {
+				g["constraints"] = ctYAML(d[0])
+			}
+			groups = append(groups, g)
+		}
+		rootNode := map[string]interface{}{"name": "root", "roles": groups}
+		if len(in.Root) > 0 {
+			rootNode["constraints"] = ctYAML(in.Root)
+		}
+		doc, e := yaml.Marshal(rootNode)
+		if e != nil {
+			return nil, e
+		}
+		root, e := workflow.VerifRoleTreeFromYAML(doc)
+		if e != nil {
+			return nil, fmt.Errorf("role tree: %v", e)
+		}
+		ds := root.GenerateTaskDescriptors()
+		if len(ds) != len(in.Descs) {
+			return nil, fmt.Errorf("expected %d descriptors, got %d", len(in.Descs), len(ds))
+		}
+		class := &taskclass.Class{Constraints: mkCts(in.Class)}
+		roles := make([][]pair, 0, len(ds))
+		for _, d := range ds {
+			roles = append(roles, ctPairs(d.RoleConstraints))
+		}
+		rounds := make([][][]pair, 0, in.Rounds)
+		sat := make([][][]bool, 0, in.Rounds)
+		for r := 0; r < in.Rounds; r++ {
+			finals := make([][]pair, 0, len(ds))
+			sats := make([][]bool, 0, len(ds))
+			for _, d := range ds {
+				final := task.VerifDescriptorConstraints(class, d.RoleConstraints)
+				finals = append(finals, ctPairs(final))
+				sa := make([]bool, 0, len(in.Agents))
+				for _, a := range in.Agents {
+					sa = append(sa, mkAttrs(a).Satisfy(final))
+				}
+				sats = append(sats, sa)
+			}
+			rounds = append(rounds, finals)
+			sat = append(sat, sats)
+		}
+		return map[string]interface{}{"role": roles, "rounds": rounds, "sat": sat, "class_after": ctPairs(class.Constraints)}, nil
 	case "RoleChain":
 		if len(in.Levels) < 2 {
 			return nil, fmt.Errorf("RoleChain needs a root role and a task role")
